@@ -28,6 +28,7 @@ import (
 	"github.com/nuts-foundation/nuts-node/vcr/assets"
 	"github.com/piprate/json-gold/ld"
 	"io/fs"
+	"net/http"
 	"net/url"
 )
 
@@ -177,6 +178,21 @@ func DefaultContextConfig() ContextsConfig {
 	}
 }
 
+// allowListTransport is a http.RoundTripper that only performs requests for URLs on the allow list,
+// this includes requests that follow from a redirect.
+type allowListTransport struct {
+	allowedURLs []string
+}
+
+func (t allowListTransport) RoundTrip(request *http.Request) (*http.Response, error) {
+	for _, allowedURL := range t.allowedURLs {
+		if allowedURL == request.URL.String() {
+			return http.DefaultTransport.RoundTrip(request)
+		}
+	}
+	return nil, ContextURLNotAllowedErr
+}
+
 // DefaultAllowList returns the default allow list for external contexts
 func DefaultAllowList() []string {
 	return []string{SchemaOrgContext, W3cVcContext, Jws2020Context, W3cStatusList2021Context}
@@ -186,6 +202,12 @@ func DefaultAllowList() []string {
 // It loads the most used context from the embedded FS. This ensures the contents cannot be altered.
 // If allowExternalCalls is set to true, it also loads external context from the internet.
 func NewContextLoader(allowUnlistedExternalCalls bool, contexts ContextsConfig) (ld.DocumentLoader, error) {
+	// If unlisted calls are not allowed, the HTTP client of the defaultLoader must not leave the allow list either:
+	// a listed context could otherwise lead it to an unlisted (or plain HTTP) location through a redirect or a Link header.
+	var httpClient *http.Client
+	if !allowUnlistedExternalCalls {
+		httpClient = &http.Client{Transport: allowListTransport{allowedURLs: contexts.RemoteAllowList}}
+	}
 	// Build the documentLoader chain:
 	// Start with rewriting all context urls to their mapped counterparts
 	loader := NewMappedDocumentLoader(contexts.LocalFileMapping,
@@ -195,7 +217,7 @@ func NewContextLoader(allowUnlistedExternalCalls bool, contexts ContextsConfig) 
 			NewEmbeddedFSDocumentLoader(assets.Assets,
 				// Last in the chain is the defaultLoader which can resolve
 				// local files and remote (via http) context documents
-				ld.NewDefaultDocumentLoader(nil))))
+				ld.NewDefaultDocumentLoader(httpClient))))
 
 	// If unlisted calls are not allowed, filter all calls to the defaultLoader
 	if !allowUnlistedExternalCalls {
